@@ -34,11 +34,12 @@ ASSUMPTIONS = ['floats are rationals; comparison tolerance 1e-9 relative (1e-12 
                'DispersiveTilt of first order in trace and dispersion; dispersion[0] != 0',
                'fit_tilt on masks whose masked basis {1, r*dx_r, -c*dx_c} is linearly independent on every segment '
                '(degenerate masks: only OPD + recorded tilt = OPD is checked); float OPD arrays']
-RULE = ('three case families: (shift) Field.shift of 0..5 angular/dispersive elements, per-axis or scalar or missing pixel '
+RULE = ('corpus first; four case families: (wave) Wavefront(tilt=) with 0..4 entries; (shift) Field.shift of 0..5 angular/dispersive elements, per-axis or scalar or missing pixel '
         'scale, both indexings, permuted orders; (fit) fit_tilt on monolithic and 2-3 segment pupils <= 8x8 after 0..2 OPD '
         'updates; (prop) pupils <= 8x8, monolithic or 2-3 segments with per-segment tilts, 1..4 global tilt elements in '
         'several orderings, total displacement from 0.1 px to 1.5x the output, per-axis dx/du, oversample 1..3, each case '
-        'propagated as OPD ramp / Tilt planes / Wavefront(tilt=) / fit_tilt / mixed; non-trivial = non-zero tilt')
+        'propagated as OPD ramp / Tilt planes (1-3 orderings, before and after the pupil) / Wavefront(tilt=) / fit_tilt after 0..2 OPD '
+        'updates / mixed (wavefront tilt + fitted OPD + planes); non-trivial = non-zero tilt')
 
 TOL = 1e-9
 F = Fraction
